@@ -1176,10 +1176,17 @@ fn collect_packages_in_expr(
             collect_packages_in_expr(lhs, imports, used);
             collect_packages_in_expr(rhs, imports, used);
         }
+        // a member of a package used as a value (`apply(math.Sqrt, x)`)
+        ast::Expr::Var { name, .. } => {
+            if let Some((pkg, _)) = name.split_once('.')
+                && imports.contains(pkg)
+            {
+                used.insert(pkg.to_string());
+            }
+        }
         ast::Expr::Nil { .. }
         | ast::Expr::Void { .. }
         | ast::Expr::Unit { .. }
-        | ast::Expr::Var { .. }
         | ast::Expr::Bool { .. }
         | ast::Expr::Int { .. }
         | ast::Expr::Float { .. }
